@@ -422,6 +422,10 @@ impl<'a> DpRun<'a> {
     pub fn step(&mut self, rep: &mut Report, rng: &mut Rng) -> bool {
         // logical hang detection: a budget of loop iterations per poll() call
         profirust::verif::set_fuel(200_000);
+        if self.world.polls % 64 == 0 && past_deadline() {
+            // (budgeted runs only: the case is cut short, what was observed so far stays)
+            return false;
+        }
         let Some(s) = self.world.step() else { return false };
         match s {
             Stepped::Polled(0) => {
